@@ -51,7 +51,7 @@ INT, FLOAT, BOOL, NONE = ("int",), ("float",), ("bool",), ("none",)
 
 def parse_type(s: str, named: Dict[str, Any]) -> tuple:
     s = s.strip()
-    if s in ("int", "float", "bool", "none"):
+    if s in ("int", "float", "bool", "none", "nat"):
         return (s,)
     if s.startswith("opt[") and s.endswith("]"):
         return ("opt", parse_type(s[4:-1], named))
@@ -95,6 +95,8 @@ class Ctx:
             return "Int"
         if k == "float":
             return "Rat"
+        if k == "nat":
+            return "Nat"   # opaque token (e.g. a CRS identity): only passed through and compared
         if k == "bool":
             return "Bool"
         if k == "none":
@@ -387,10 +389,26 @@ class FnTranslator:
                     return V(f"{paren(base.lean)}.{spec.get('lean_fields', {}).get(n, n)}", t)
             if spec.get("pyclass") == "slice" and name == "step":
                 return V("()", NONE)
+            alias = spec.get("attrs", {}).get(name)
+            if isinstance(alias, str):
+                return self.attr(base, alias, node)
+            if isinstance(alias, list):
+                return Tup([self.attr(base, a, node) for a in alias])
+            q = f"{spec.get('pyclass', base.ty[1])}.{name}"
+            prop = self.ctx.funcs.get(q)
+            if prop is not None and prop.node is not None and any(ast.unparse(d) == "property" for d in prop.node.decorator_list):
+                return self.call_known(prop, [], [], {}, node, base)
         self.fail(node, f"attribute '.{name}' on a value of type {fmt_ty(base.ty)}")
 
     def ex_Subscript(self, node, env):
         base = self.ex(node.value, env)
+        if isinstance(base, V) and base.ty[0] == "list" and not isinstance(node.slice, ast.Slice):
+            i = self.ex(node.slice, env)
+            if not (isinstance(i, V) and i.ty == INT):
+                self.fail(node, "list subscript with a non-integer index")
+            tmp = self.fresh("el")
+            self.pre.append(("bind", tmp, f"Py.listGet {paren(base.lean)} {paren(i.lean)}"))
+            return V(tmp, base.ty[1])
         idx = self.ex(node.slice, env) if not isinstance(node.slice, ast.Slice) else None
         if idx is None or not isinstance(idx, V) or idx.lit is None or idx.ty != INT:
             self.fail(node, "subscript with an index that is not a literal integer")
@@ -503,7 +521,103 @@ class FnTranslator:
         return v
 
     def ex_GeneratorExp(self, node, env):
+        if self.list_source(node, env) is not None:
+            return self.list_comp(node, env)
         return Tup(self.unroll(node, env))
+
+    # -- comprehensions over sequences of unknown length (modelled as `List`): map / mapM with a lambda
+    def list_source(self, node, env):
+        """-> (lean list term, element value builder) if the single generator iterates over list-typed operands"""
+        if len(node.generators) != 1 or node.generators[0].ifs or node.generators[0].is_async:
+            return None
+        it = node.generators[0].iter
+        ops = it.args if (isinstance(it, ast.Call) and isinstance(it.func, ast.Name) and it.func.id == "zip"
+                          and not it.keywords and "zip" not in env) else None
+        probe = ops if ops is not None else [it]
+        for o in probe:
+            if not (isinstance(o, ast.Name) and isinstance(env.get(o.id), V) and env[o.id].ty[0] == "list"):
+                if ops is None and isinstance(o, ast.Call) and _callname(o) not in ("range", "zip", "map", "enumerate"):
+                    continue  # a call of a translated function: decided after evaluation
+                return None
+        return (ops is not None)
+
+    def list_operand(self, node, env):
+        """evaluate the iterable of a comprehension -> (lean term of the list, value of one element given binder `p`)"""
+        g = node.generators[0]
+        it = g.iter
+        if isinstance(it, ast.Call) and isinstance(it.func, ast.Name) and it.func.id == "zip" and "zip" not in env:
+            vs = [self.ex(a, env) for a in it.args]
+            if len(vs) != 2 or not all(isinstance(v, V) and v.ty[0] == "list" for v in vs):
+                self.fail(node, "zip over sequences of unknown length is translated for exactly two lists")
+            lean = f"(List.zip {paren(vs[0].lean)} {paren(vs[1].lean)})"
+            p = self.fresh("p")
+            elem = Tup([V(f"{p}.1", vs[0].ty[1]), V(f"{p}.2", vs[1].ty[1])])
+            return lean, p, elem
+        v = self.ex(it, env)
+        if not (isinstance(v, V) and v.ty[0] == "list"):
+            return None
+        p = self.fresh("p")
+        return v.lean, p, V(p, v.ty[1])
+
+    def list_comp(self, node, env, as_pred: Optional[str] = None):
+        src = self.list_operand(node, env)
+        if src is None:
+            return Tup(self.unroll(node, env))
+        lean, p, elem = src
+        env2 = dict(env)
+        self.bind_target(node.generators[0].target, elem, env2, node)
+        self.pre_stack.append([])
+        try:
+            if as_pred:
+                body = V(f"decide ({self.prop(node.elt, env2)})", BOOL)
+            else:
+                body = self.ex(node.elt, env2)
+                body = self.materialise(body) if not isinstance(body, V) else body
+            pre = self.pre
+        finally:
+            self.pre_stack.pop()
+        if as_pred:
+            if pre:
+                self.fail(node, "operation that can raise inside all() / any()")
+            return V(f"(List.{as_pred} {paren(lean)} (fun {p} => {body.lean}))", BOOL)
+        if pre:
+            # an element can raise: sequence left to right, first error wins (`List.mapM` in `Except`)
+            saved, self.res = self.res, True
+            if len(pre) == 1 and pre[0][0] == "bind" and pre[0][1] == body.lean:
+                fn = pre[0][2]  # the element is the result of one raising call: pass it through as it is
+                self.raised = True
+            else:
+                fn = self.wrap_pre(pre, f"(.ok {paren(body.lean)})")
+            self.res = saved
+            tmp = self.fresh("xs")
+            one = " ".join(fn.split())
+            self.pre.append(("bind", tmp, f"List.mapM (fun {p} => ({one} : Res {self.ctx.lean_type(body.ty)})) {paren(lean)}"))
+            return V(tmp, ("list", body.ty))
+        return V(f"(List.map (fun {p} => {body.lean}) {paren(lean)})", ("list", body.ty))
+
+    def call_all(self, node, env):
+        return self.allany(node, env, "all")
+
+    def call_any(self, node, env):
+        return self.allany(node, env, "any")
+
+    def allany(self, node, env, which):
+        if len(node.args) != 1 or not isinstance(node.args[0], (ast.GeneratorExp, ast.ListComp)):
+            self.fail(node, f"{which}() of something other than a comprehension")
+        g = node.args[0]
+        if self.list_source(g, env) is not None:
+            v = self.list_comp(g, env, as_pred=which)
+            if isinstance(v, V):
+                return v
+        items = self.unroll(g, env)
+        props = []
+        for i in items:
+            if not (isinstance(i, V) and i.ty == BOOL):
+                self.fail(node, f"{which}() over non-boolean elements")
+            props.append(f"({i.lean} = true)")
+        sym = " ∧ " if which == "all" else " ∨ "
+        base = "True" if which == "all" else "False"
+        return V(f"decide ({'(' + sym.join(props) + ')' if props else base})", BOOL)
 
     ex_ListComp = ex_GeneratorExp
 
@@ -587,6 +701,23 @@ class FnTranslator:
             ctor = f"{name}.__init__"
             if ctor in self.ctx.funcs:
                 return self.call_known(self.ctx.funcs[ctor], node.args, node.keywords, env, node, None)
+            for tname, spec in self.ctx.named.items():
+                if spec["kind"] == "struct" and spec.get("pyclass") == name and "ctor" in spec:
+                    # a constructor that only stores its arguments (declared in the manifest, exercised by the self-check)
+                    names = [c if isinstance(c, str) else c[0] for c in spec["ctor"]]
+                    fields: Dict[str, Any] = {}
+                    if len(node.args) > len(names):
+                        self.fail(node, f"too many arguments for {name}()")
+                    for n, a in zip(names, node.args):
+                        fields[n] = self.ex(a, env)
+                    for kw in node.keywords:
+                        if kw.arg not in names or kw.arg in fields:
+                            self.fail(node, f"unsupported keyword argument for {name}()")
+                        fields[kw.arg] = self.ex(kw.value, env)
+                    for c in spec["ctor"]:
+                        if not isinstance(c, str) and c[0] not in fields:
+                            fields[c[0]] = self.ex(ast.Constant(value=c[1]), env)
+                    return Rec(("struct", tname), fields)
         if isinstance(fn, ast.Attribute):
             # method call  obj.method(...)  /  Class.staticmethod(...)
             if isinstance(fn.value, ast.Name) and fn.value.id not in env:
@@ -805,9 +936,30 @@ class FnTranslator:
         (x,) = self.args1(node, env)
         if isinstance(x, Tup):
             return x
+        if isinstance(x, V) and x.ty[0] == "list":
+            return x  # a tuple of unknown length is a `List`
         if isinstance(x, V) and x.ty[0] == "tuple":
             return x
         self.fail(node, "tuple() of a value whose length is not fixed")
+
+    call_list = call_tuple
+
+    def call_sorted(self, node, env):
+        (x,) = self.args1(node, env)
+        comps = self.tuple_components(x) if (isinstance(x, Tup) or (isinstance(x, V) and x.ty[0] == "tuple")) else None
+        if comps is None or len(comps) != 2:
+            self.fail(node, "sorted() of something other than a pair")
+        a, b, ty = self.num2(comps[0], comps[1], node)
+        return Tup([V(f"(min {paren(a.lean)} {paren(b.lean)})", ty), V(f"(max {paren(a.lean)} {paren(b.lean)})", ty)])
+
+    def call_len(self, node, env):
+        (x,) = self.args1(node, env)
+        if isinstance(x, V) and x.ty[0] == "list":
+            return V(f"(({paren(x.lean)}.length : Nat) : Int)", INT)
+        if isinstance(x, Tup) or (isinstance(x, V) and x.ty[0] == "tuple"):
+            n = len(self.tuple_components(x))
+            return V(f"({n} : Int)", INT, Fraction(n))
+        self.fail(node, f"len() of {fmt_ty(x.ty)}")
 
     def call_bool(self, node, env):
         return V(f"decide ({self.prop(node.args[0], env)})", BOOL)
@@ -896,6 +1048,24 @@ class FnTranslator:
             test = test.operand
         if isinstance(test, ast.Call) and _callname(test) == "isinstance" and len(test.args) == 2:
             tgt, cls = test.args
+            if isinstance(tgt, ast.Name) and tgt.id in env and isinstance(cls, ast.Attribute) \
+                    and isinstance(cls.value, ast.Name) and cls.value.id in ("np", "numpy") \
+                    and cls.attr in ("integer", "floating", "number", "generic", "ndarray", "bool_"):
+                v = env[tgt.id]
+                if isinstance(v, V) and v.ty in (INT, FLOAT, BOOL):
+                    # the modelled value is a Python number (ints unbounded, floats exact): never a numpy scalar;
+                    # fixed-width representations are outside the model (DESIGN §3.2)
+                    return ("const", tgt, not neg)
+            seq_cls = (isinstance(cls, ast.Name) and cls.id in ("tuple", "list", "Sequence")) or \
+                (isinstance(cls, ast.Attribute) and cls.attr == "Sequence")
+            if isinstance(tgt, ast.Name) and tgt.id in env and seq_cls:
+                v = env[tgt.id]
+                is_seq = isinstance(v, Tup) or (isinstance(v, V) and v.ty[0] in ("list", "tuple"))
+                is_scalar = isinstance(v, Rec) or (isinstance(v, V) and v.ty[0] in ("int", "float", "bool", "intorslice", "struct"))
+                if is_seq:
+                    return ("const", tgt, neg)
+                if is_scalar and not (isinstance(v, V) and v.ty[0] == "struct"):
+                    return ("const", tgt, not neg)
             if isinstance(tgt, ast.Name) and tgt.id in env and isinstance(cls, ast.Name):
                 v = env[tgt.id]
                 if isinstance(v, V) and v.ty[0] == "intorslice":
@@ -1286,6 +1456,8 @@ class FnTranslator:
         return self.block(stmts + rest, env2)
 
     def st_FunctionDef(self, s, rest, env):
+        if f"{self.info.py}.{s.name}" in self.ctx.funcs:
+            return self.block(rest, env)  # a nested helper listed in the manifest: translated on its own, called by name
         self.fail(s, "nested function definition (list it in the manifest as outer.inner and call it)")
 
 
@@ -1319,7 +1491,7 @@ def rat_lit(f: Fraction) -> str:
 
 
 def fmt_ty(t) -> str:
-    if t[0] in ("int", "float", "bool", "none"):
+    if t[0] in ("int", "float", "bool", "none", "nat"):
         return t[0]
     if t[0] == "opt":
         return f"opt[{fmt_ty(t[1])}]"
